@@ -9,6 +9,8 @@ mkdir -p .build evidence replays
 python3 translators/extract_clean_pairs.py
 python3 translators/extract_codec_tags.py
 python3 translators/extract_serde_attrs.py
+python3 translators/extract_impl_tables.py
+python3 translators/extract_typestate.py
 # the schema translator needs the schema harness built first
 cp /repo/Cargo.lock harness/schema/Cargo.lock 2>/dev/null || true
 (cd harness/schema && CARGO_TARGET_DIR="$V/.build/sch" cargo build --offline --quiet && CARGO_TARGET_DIR="$V/.build/sch-bv" cargo build --offline --quiet --features bitvec)
